@@ -187,10 +187,65 @@ Section Eval.
         end
     end.
 
+  (* _contains_buildable: as_buildable raises TypeError unless its result is a Buildable or a
+     list / tuple / dict / namedtuple structure holding one *)
+  Fixpoint contains_buildable (fuel : nat) (h : heap) (r : ref) : bool :=
+    match fuel with
+    | O => false
+    | S f =>
+        match r with
+        | RA _ => false
+        | RP i =>
+            match nth_error h i with
+            | Some (NBuildable _ _ _ _) => true
+            | Some (NList xs) | Some (NTuple xs) => existsb (contains_buildable f h) xs
+            | Some (NDict kvs) | Some (NDefaultDict _ kvs) =>
+                existsb (fun kv => contains_buildable f h (snd kv)) kvs
+            | Some (NNamedTuple _ fs) => existsb (fun kv => contains_buildable f h (snd kv)) fs
+            | _ => false
+            end
+        end
+    end.
+
   Definition run_program (cfg : bool) (fuel : nat) (args : list ref) (o : heap) (p : program)
     : heap * option ref :=
     match run_body cfg fuel args o (p_body p) with
-    | (o1, Some env) => eval cfg fuel env o1 (p_ret p)
+    | (o1, Some env) =>
+        match eval cfg fuel env o1 (p_ret p) with
+        | (o2, Some r) =>
+            if cfg then (if contains_buildable (S (length o2)) o2 r then (o2, Some r) else (o2, None))
+            else (o2, Some r)
+        | res => res
+        end
     | (o1, None) => (o1, None)
     end.
 End Eval.
+
+(* ---- functools.partial objects up to argument binding --------------------------------------------
+   functools.partial(fn, 1, q=2) and functools.partial(fn, p=1, q=2) call fn identically when p is
+   fn's first positional-or-keyword parameter; a built fdl.Partial always has the second form.
+   norm_node binds the leading positional arguments to their parameter names (inspect's
+   bind_partial) and orders the keywords by name, so that the two forms are compared as equal. *)
+Fixpoint bind_prefix (ps : sig) (pos : list ref) : list (N * ref) * list ref :=
+  match ps, pos with
+  | p :: ps', v :: pos' =>
+      if is_prefix_kind (pk p)
+      then let '(b, rest) := bind_prefix ps' pos' in ((pname p, v) :: b, rest)
+      else ([], pos)
+  | _, _ => ([], pos)
+  end.
+
+Fixpoint insert_kw (x : N * ref) (l : list (N * ref)) : list (N * ref) :=
+  match l with
+  | [] => [x]
+  | y :: l' => if N.leb (fst x) (fst y) then x :: l else y :: insert_kw x l'
+  end.
+Definition sort_kw (l : list (N * ref)) : list (N * ref) := fold_right insert_kw [] l.
+
+Definition norm_node (e : sigenv) (n : node) : node :=
+  match n with
+  | NPartialObj fn pos kw =>
+      let '(b, rest) := bind_prefix (sig_of e fn) pos in NPartialObj fn rest (sort_kw (b ++ kw))
+  | _ => n
+  end.
+Definition norm_heap (e : sigenv) (h : heap) : heap := map (norm_node e) h.
